@@ -132,9 +132,18 @@ func (w *c13File) Read(p []byte) (int, error) {
 	if hit {
 		w.inj.fired, w.inj.firedAt = true, fmt.Sprintf("read #%d", w.inj.fault.N)
 	}
+	// the same read failing with io.ErrUnexpectedEOF, the error a reader gives for a stream that ends inside a record:
+	// it is a failure like any other and must not be taken for the end of the run
+	ueof := w.inj.fault.Kind == "read-unexpected-eof" && w.inj.counts["read"] == w.inj.fault.N
+	if ueof {
+		w.inj.fired, w.inj.firedAt = true, fmt.Sprintf("read #%d (fails with io.ErrUnexpectedEOF)", w.inj.fault.N)
+	}
 	w.inj.mu.Unlock()
 	if hit {
 		return 0, errInjected
+	}
+	if ueof {
+		return 0, io.ErrUnexpectedEOF
 	}
 	return w.f.Read(p)
 }
@@ -199,14 +208,16 @@ func (in *c13Inj) step(name string) {
 }
 
 type c13Outcome struct {
-	E        bool     `json:"error_reported"`
-	Errors   []string `json:"errors"`
-	Got      []int    `json:"pulled"`
-	Correct  bool     `json:"correct"`
-	Fired    bool     `json:"fault_reached"`
-	FiredAt  string   `json:"fault"`
-	Counts   map[string]int
-	Panicked string `json:"panic,omitempty"`
+	E                 bool     `json:"error_reported"`
+	Errors            []string `json:"errors"`
+	Got               []int    `json:"pulled"`
+	Correct           bool     `json:"correct"`
+	Fired             bool     `json:"fault_reached"`
+	FiredAt           string   `json:"fault"`
+	Counts            map[string]int
+	Panicked          string   `json:"panic,omitempty"`
+	DrainedAfterError bool     `json:"drained_to_eof_after_the_error,omitempty"`
+	Residue           []string `json:"run_files_left_after_that_drain,omitempty"`
 }
 
 // c13Exec runs one workload with at most one injected fault.
@@ -272,6 +283,21 @@ func c13Exec(r *obs.Run, p c13Plan, vals []int) (out c13Outcome) {
 			}
 			if err != nil {
 				note(fmt.Sprintf("Pull %d", len(out.Got)), err)
+				if p.AutoClear && inj.dir != "" {
+					// the caller drains on regardless: once io.EOF arrives the AutoClear promise (no run files left) applies
+					for k := 0; k < len(vals)+4; k++ {
+						var x c11Int
+						if e := m.Pull(&x); e == io.EOF {
+							if ents, e2 := os.ReadDir(inj.dir); e2 == nil {
+								out.DrainedAfterError = true
+								for _, en := range ents {
+									out.Residue = append(out.Residue, en.Name())
+								}
+							}
+							break
+						}
+					}
+				}
 				break
 			}
 			out.Got = append(out.Got, int(v))
@@ -451,6 +477,7 @@ func c13Items(r *obs.Run) []c13Item {
 			// writes and reads: ordinals are enumerated up to a generous bound; the census decides which exist
 			items = append(items, c13Item{plan: c13Plan{W: w, Concurrent: conc, Fault: c13Fault{"write", -1}}})
 			items = append(items, c13Item{plan: c13Plan{W: w, Concurrent: conc, Fault: c13Fault{"read", -1}}})
+			items = append(items, c13Item{plan: c13Plan{W: w, Concurrent: conc, Fault: c13Fault{"read-unexpected-eof", -1}}})
 		}
 	}
 	// large chunks: run files longer than gob's 4096-byte read buffer, so that reads also happen (and can fail) in the
@@ -458,6 +485,7 @@ func c13Items(r *obs.Run) []c13Item {
 	for _, w := range []c12Workload{{400, 2, 150}, {700, 1, 300}, {450, 3, 0}} {
 		for _, conc := range []bool{false, true} {
 			items = append(items, c13Item{plan: c13Plan{W: w, Concurrent: conc, Fault: c13Fault{"read", -1}}})
+			items = append(items, c13Item{plan: c13Plan{W: w, Concurrent: conc, Fault: c13Fault{"read-unexpected-eof", -1}}})
 			items = append(items, c13Item{plan: c13Plan{W: w, Concurrent: conc, Fault: c13Fault{"write", -2}}})
 		}
 	}
@@ -530,6 +558,7 @@ func c13Case(r *obs.Run, i int) {
 		// enumerate every write (or read) ordinal of this workload
 		vals := c13Vals(it.plan.W)
 		cen := c13Census(r, it.plan.W, it.plan.Concurrent, vals)
+		cen["read-unexpected-eof"] = cen["read"]
 		for n := 1; n <= cen[it.plan.Fault.Kind]; n++ {
 			for _, ac := range []bool{false, true} {
 				p := it.plan
@@ -573,6 +602,12 @@ func c13One(r *obs.Run, p c13Plan, vals []int) {
 	}
 	if !out.E && !out.Correct && out.Panicked == "" {
 		r.Violate("failure-hidden", fmt.Sprintf("%s (workload %+v, concurrent=%v): no Push/Finalise/Pull reported an error, yet %d of %d values were delivered: %v", out.FiredAt, p.W, p.Concurrent, len(out.Got), len(vals), out.Got), w)
+	}
+	if out.DrainedAfterError {
+		r.Count("autoclear_drains_after_a_read_error", 1)
+		if len(out.Residue) > 0 {
+			r.Violate("autoclear-residue", fmt.Sprintf("%s (workload %+v, concurrent=%v, AutoClear): the error was reported, the caller drained on to io.EOF, and %d run file(s) remain: %v", out.FiredAt, p.W, p.Concurrent, len(out.Residue), out.Residue), w)
+		}
 	}
 	// the first clause read literally: the failed operation must surface as an error from some call, also when every
 	// value still comes back. Only for faults known to have taken effect: which file a seek ordinal refers to is exact
